@@ -273,7 +273,7 @@ theorem Pres.frameQS (hP : Pres P S A Q) {s s' : State} (h : QS S Q s) (ha : Aux
   ⟨hP.frame s s' h.1 ha, seen_aux h.2 ha (fun o hm => (ho o hm).elim (h.2.1 o) id)⟩
 
 theorem Pres.dropOrphanQS (hP : Pres P S A Q) (s : State) (id : Nat) (h : QS S Q s) : QS S Q (dropOrphan s id) :=
-  hP.frameQS h (aux_dropOrphan s id) (fun o ho => Or.inl (List.mem_filter.mp ho).1)
+  hP.frameQS h (aux_dropOrphan s id) (fun _ ho => Or.inl (List.mem_filter.mp ho).1)
 
 theorem Pres.unorphanQS (hP : Pres P S A Q) (s : State) (b : Blk) (h : QS S Q s) : QS S Q (unorphan s b) := by
   unfold unorphan
@@ -285,7 +285,7 @@ theorem Pres.reorgTo (hP : Pres P S A Q) (s : State) (b : Blk) (f : Option Blk) 
     QS S Q (reorgTo P s b f).1 := by
   unfold C27.reorgTo
   have h1 : QS S Q (resetFin s f) :=
-    hP.frameQS h (aux_resetFin s f).1 (fun o ho => Or.inl (by rw [(aux_resetFin s f).2] at ho; exact ho))
+    hP.frameQS h (aux_resetFin s f).1 (fun _ ho => Or.inl (by rw [(aux_resetFin s f).2] at ho; exact ho))
   have h2 := hP.reorganize (resetFin s f) (getReorganizeNodes (resetFin s f) b f).1
     (getReorganizeNodes (resetFin s f) b f).2 h1
   dsimp only
